@@ -536,7 +536,10 @@ class Module:
             if nm not in env:
                 raise Unsupported("loop variable %s not initialised before the loop" % nm)
         others = [k for k in env if not k.startswith("__") and k not in carried and env[k][1] in ("int", "bool", "list", "str")]
-        loop = self.newvar(self.cur + "_loop")
+        self.nloops = getattr(self, "nloops", {})
+        k_ = self.nloops.get(self.cur, 0)
+        self.nloops[self.cur] = k_ + 1
+        loop = self.cur + "_loop" + (str(k_) if k_ else "")   # deterministic: proofs refer to it by name
         tyof = {"int": "Z", "bool": "bool", "list": "list Z", "str": "string"}
         inner = {}
         params = []
